@@ -145,6 +145,9 @@ func solveAll(results []*OblResult, timeoutS int, workers int, order []int) {
 					agg.MaxPart = pr.Res.Time
 				}
 				agg.Tried = append(agg.Tried, pr.Res.Tried...)
+				if os.Getenv("GOVC_DEBUG") != "" {
+					fmt.Fprintf(os.Stderr, "  part of %s: %s %.2fs %v\n", r.Obl.Name, pr.Res.Solver, pr.Res.Time, pr.Res.Tried)
+				}
 				if agg.Solver == "" {
 					agg.Solver = pr.Res.Solver
 				}
@@ -302,6 +305,29 @@ func solveAll(results []*OblResult, timeoutS int, workers int, order []int) {
 						}
 					}
 				}
+				if !r.Obl.ExpectSat && r.Res.Status != "unsat" {
+					// the queries so far leave out hypotheses that bound unmentioned terms: anything but "unsat" is
+					// re-examined on the full query (a refutation must hold under all hypotheses)
+					r.Ex.buildMu.Lock()
+					r.Ex.noSlice = true
+					full := r.Ex.buildQuery(r.Obl, nil)
+					r.Ex.noSlice = false
+					r.Ex.buildMu.Unlock()
+					if full != r.Script {
+						res2 := Solve2race(full, "", timeoutS, order)
+						tried := append(append([]string{}, r.Res.Tried...), "full:"+strings.Join(res2.Tried, ","))
+						res2.Time += r.Res.Time
+						if res2.Status != "sat" && res2.Status != "unsat" {
+							res2.Status = "unknown"
+							if r.Res.Status == "timeout" {
+								res2.Status = "timeout"
+							}
+						}
+						res2.Tried = tried
+						r.Res = res2
+						r.Script = full
+					}
+				}
 				switch {
 				case r.Obl.ExpectSat && r.Res.Status == "sat":
 					r.Status = "cover-ok"
@@ -329,7 +355,102 @@ func solveAll(results []*OblResult, timeoutS int, workers int, order []int) {
 // solveStaged: one second on the exact query (and on its linearisation); then, if the goal is a conjunction or a
 // bit-vector equation, conjunct by conjunct; then the race of all solvers on the exact and linearised queries.
 func solveStaged(r *OblResult, timeoutS int, order []int) *SolveResult {
-	first := Solve2first(r.Script, r.LinScript, order)
+	// obligations after a cut: first without the hypotheses that tie the path to its history before the cut
+	r.Ex.buildMu.Lock()
+	hasLink := !r.Ex.linkOverflow && len(r.Ex.linkBit) > 0 && r.Ex.linksIn(r.Obl.Guard) != 0 && !(r.Ex.FC != nil && r.Ex.FC.NoLocal)
+	r.Ex.buildMu.Unlock()
+	var pre, firstDone *SolveResult
+	if hasLink {
+		r.Ex.buildMu.Lock()
+		r.Ex.dropLinks = true
+		local := r.Ex.buildQuery(r.Obl, nil)
+		var conj []string
+		var conjCoi [][]string
+		if cj := r.Ex.goalConjuncts(r.Obl.Goal); len(cj) > 1 && len(cj) <= 40 {
+			for _, g := range cj {
+				o2 := *r.Obl
+				o2.Goal = g
+				conj = append(conj, r.Ex.buildQuery(&o2, nil))
+				var cs []string
+				for rounds := 1; rounds <= 3; rounds++ {
+					r.Ex.coi = rounds
+					cs = append(cs, r.Ex.buildQuery(&o2, nil))
+				}
+				r.Ex.coi = 0
+				conjCoi = append(conjCoi, cs)
+			}
+		}
+		r.Ex.dropLinks = false
+		r.Ex.buildMu.Unlock()
+		// the local and the full query side by side for the first second: whichever is refuted first decides
+		fullCh := make(chan *SolveResult, 1)
+		go func() { fullCh <- Solve2first(r.Script, r.LinScript, order) }()
+		pre = Solve2first(local, "", order)
+		if pre.Status == "unsat" {
+			pre.Solver = "local:" + pre.Solver
+			return pre
+		}
+		early := <-fullCh
+		if early.Status == "unsat" || early.Status == "sat" {
+			early.Tried = append(append([]string{}, pre.Tried...), early.Tried...)
+			return early
+		}
+		pre.Status = "unknown"
+		firstDone = early
+		if len(conj) > 1 {
+			// conjunct by conjunct on the local query, one second each: where the cut or the invariants carry what is
+			// needed these are tiny queries; the first that is not decided ends the attempt
+			all := true
+			maxPart := 0.0
+			for ci, sc := range conj {
+				// first the cone of influence of the conjunct (a fraction of the hypotheses), then all of them
+				var pr *SolveResult
+				tc := 0.0
+				for k, cq := range conjCoi[ci] {
+					if k > 0 && cq == conjCoi[ci][k-1] {
+						continue
+					}
+					pr = Solve2race(cq, "", 1, order[:1])
+					tc += pr.Time
+					if pr.Status == "unsat" {
+						break
+					}
+				}
+				pr.Time = tc
+				if pr.Status != "unsat" {
+					t1 := pr.Time
+					pr = Solve2race(sc, "", 3, order)
+					pr.Time += t1
+				} else {
+					pr.Solver = "coi:" + pr.Solver
+				}
+				pre.Time += pr.Time
+				if os.Getenv("GOVC_DEBUG") != "" {
+					fmt.Fprintf(os.Stderr, "  local part of %s: %s by %s in %.2fs\n", r.Obl.Name, pr.Status, pr.Solver, pr.Time)
+					os.WriteFile("/tmp/govc_local_part.smt2", []byte(sc), 0o644)
+				}
+				if pr.Time > maxPart {
+					maxPart = pr.Time
+				}
+				if pr.Status != "unsat" {
+					all = false
+					pre.Tried = append(pre.Tried, "local-conj:"+strings.Join(pr.Tried, ","))
+					break
+				}
+			}
+			if all {
+				return &SolveResult{Status: "unsat", Solver: fmt.Sprintf("local:conj(%d)", len(conj)), Time: pre.Time, Tried: pre.Tried, MaxPart: maxPart}
+			}
+		}
+	}
+	first := firstDone
+	if first == nil {
+		first = Solve2first(r.Script, r.LinScript, order)
+	}
+	if pre != nil {
+		first.Tried = append(append([]string{}, pre.Tried...), first.Tried...)
+		first.Time += pre.Time
+	}
 	if first.Status == "unsat" || first.Status == "sat" {
 		return first
 	}
@@ -360,6 +481,10 @@ func solveStaged(r *OblResult, timeoutS int, order []int) *SolveResult {
 		for ci, sc := range conj {
 			pr := Solve2race(sc, conjLin[ci], per, order)
 			tot += pr.Time
+			if os.Getenv("GOVC_DEBUG") != "" {
+				fmt.Fprintf(os.Stderr, "  conj part %d/%d of %s: %s by %s in %.2fs\n", ci+1, len(conj), r.Obl.Name, pr.Status, pr.Solver, pr.Time)
+				os.WriteFile(fmt.Sprintf("/tmp/govc_part_%d.smt2", ci+1), []byte(sc), 0o644)
+			}
 			if pr.Time > maxPart {
 				maxPart = pr.Time
 			}
@@ -381,6 +506,14 @@ func solveStaged(r *OblResult, timeoutS int, order []int) *SolveResult {
 	}
 	rest := Solve2race(r.Script, r.LinScript, timeoutS, order)
 	rest.Tried = append(first.Tried, rest.Tried...)
+	if os.Getenv("GOVC_DEBUG") != "" {
+		fmt.Fprintf(os.Stderr, "  final race of %s: %s by %s in %.2fs %v\n", r.Obl.Name, rest.Status, rest.Solver, rest.Time, rest.Tried[len(first.Tried):])
+	}
+	if rest.Status == "unsat" {
+		// (what is compared with the claim limit is the deciding query's own time, not the time spent on the cheaper
+		// variants tried before it)
+		rest.MaxPart = rest.Time
+	}
 	rest.Time += first.Time
 	return rest
 }
